@@ -4,7 +4,6 @@ import (
 	"math"
 	"math/big"
 
-	at "github.com/DanielSvub/anytype"
 	"pgregory.net/rapid"
 )
 
@@ -20,10 +19,11 @@ type NumSpec struct {
 type C18Case struct {
 	Class string    `json:"class"` // "exact", "general", "fullrange", "intfamily"
 	Elems []NumSpec `json:"elems"`
+	Route int       `json:"route,omitempty"` // construction route (see listByRoute)
 }
 
 func GenC18(t *rapid.T) *C18Case {
-	c := &C18Case{Class: []string{"exact", "general", "fullrange", "intfamily"}[pick(t, "class", 30, 30, 15, 25)]}
+	c := &C18Case{Class: []string{"exact", "general", "fullrange", "intfamily"}[pick(t, "class", 30, 30, 15, 25)], Route: drawInt(t, 0, 7, "route")}
 	n := []int{0, 1, 1, 2, 2, 3, 4, 5, 6, 8, 10, 15, 20}[drawIdx(t, 13, "n")]
 	sign := drawInt(t, 0, 3, "sign") // 0 mixed, 1 all negative, 2 all positive, 3 mixed
 	apply := func(x float64) float64 {
@@ -110,7 +110,8 @@ func GenC18(t *rapid.T) *C18Case {
 
 func CheckC18(c *C18Case, st *Stats) error {
 	st.Count("class." + c.Class)
-	l := at.NewList()
+	shape := V{K: KList}
+	var elems []any
 	var xs []float64 // numeric elements taken as float64
 	var ints []int
 	nonNumeric := false
@@ -122,13 +123,15 @@ func CheckC18(c *C18Case, st *Stats) error {
 			if c.Class != "intfamily" {
 				return nil
 			}
-			l.Add(Build(*e.Other))
+			elems = append(elems, Build(*e.Other))
+			shape.L = append(shape.L, V{K: e.Other.K, B: e.Other.B, S: e.Other.S})
 			nonNumeric = true
 			if len(ints) > 0 {
 				interleaved = true
 			}
 		case e.IsInt:
-			l.Add(int(e.I))
+			elems = append(elems, int(e.I))
+			shape.L = append(shape.L, VInt(int(e.I)))
 			xs = append(xs, float64(int(e.I)))
 			ints = append(ints, int(e.I))
 			sawInt = true
@@ -140,7 +143,8 @@ func CheckC18(c *C18Case, st *Stats) error {
 			if f != f || math.IsInf(f, 0) {
 				return nil // finite floats only
 			}
-			l.Add(f)
+			elems = append(elems, f)
+			shape.L = append(shape.L, VFloat(f))
 			xs = append(xs, f)
 			sawFloat = true
 			if f < 0 {
@@ -152,6 +156,7 @@ func CheckC18(c *C18Case, st *Stats) error {
 		}
 	}
 	mixture = sawInt && sawFloat
+	l := listByRoute(shape, elems, c.Route%8, len(elems))
 	before, err := TakeIdentSnap(l)
 	if err != nil {
 		return err
